@@ -160,7 +160,7 @@ def run(case: dict, ctx) -> dict:
             tag=rng.getrandbits(48), header_off=rng.choice([512, 512, 1024, 512 * rng.randrange(1, 40), (4 << 30) - 512, 6 << 30]) if bs >= 4096 else 512,
             table_gap=rng.choice([0, 0, 1, 7]), extra_entries=rng.choice([0, 0, 1, 5]),
             orig_size=rng.choice([None, None, bs * rng.randrange(1, 3 * n + 2), SECTOR * rng.randrange(1, 100)]),
-            table_place=rng.choice(["front", "front", "behind", "middle"]),
+            table_place=rng.choice(["front", "front", "behind", "middle"]), stale_copy=rng.random() < 0.2,
         )
         units = [bs]
     model = Model(meta["size"], [layer])
